@@ -495,12 +495,14 @@ fn compare(file: &mut ast::File, prog: &GProg, printed: &Printed, checked: bool)
 }
 
 pub fn case(tape: &[u32]) -> CaseOutcome {
-    let mut t = Tape::new(tape);
+    let (aux, main) = split_tape(tape);
+    let mut t = Tape::new(&aux);
+    let mut gt = Tape::new(&main);
     let checked = t.chance(1, 3);
     let (prog, kinds, kw) = if checked {
         let mut cfg = GenCfg::full();
         cfg.gnode_text = true;
-        let g = crate::gen::generate(&mut t, &cfg);
+        let g = crate::gen::generate(&mut gt, &cfg);
         let mut kinds = BTreeSet::new();
         for s in g.prog.stanzas() {
             walk_stmts(&s.body, 0, &mut |st, _| {
@@ -509,7 +511,7 @@ pub fn case(tape: &[u32]) -> CaseOutcome {
         }
         (g.prog, kinds.len(), 1)
     } else {
-        gen_free(&mut t)
+        gen_free(&mut gt)
     };
     let printed = print_random(&prog, &mut t);
     let text = &printed.text;
@@ -561,7 +563,7 @@ pub fn case(tape: &[u32]) -> CaseOutcome {
 }
 
 pub fn spec(tier: &str) -> Spec {
-    let mut s = Spec::new("C07", tier, 8_000, 150_000, 1200);
+    let mut s = Spec::new("C07", tier, 8_000, 150_000, 1800);
     s.rule = "two thirds free-form programs over every statement and expression form (nesting to depth 5, identifiers that begin with keywords or contain non-ASCII letters, strings with every escape and multi-byte characters, integers up to u32::MAX with leading zeros, regex literals, multi-line queries with comments / braces inside strings) parsed with the parse-only entry (File::new + parse), one third checker-valid generated programs parsed with File::from_str; all printed with a random layout (runs of spaces / tabs / newlines / `;` comments with multi-byte text wherever a separator is allowed, raw or escaped newlines and tabs and unnecessary escapes inside strings, optional trailing commas). Oracle: globals, inherit names, shorthands and every stanza's statement list must equal (ast PartialEq) the AST built from the printer's own record, incl. every Location (stanza start and end, statement keyword, unscoped variable, scoped-variable name token, capture, condition, if/elif/else arm, comprehension bracket); after from_str the resolved capture quantifier must be the query's. Non-trivial: >=3 statement kinds, >=1 comment or multi-line query, and a located construct after a multi-byte character on its line or a keyword-prefixed identifier. Distinct = fingerprint of the text.".into();
     s.assumptions = vec![
         "a bare `global name` is followed by a plain whitespace character (comments directly after the name are excluded, DESIGN §4)".into(),
